@@ -197,14 +197,44 @@ Definition stage1 (t : ty) : bool :=
 Definition stage2 (t : ty) : bool :=
   negb (ty_any (fun t => is_union t || is_mutable t) t).
 
+(* occupies t: every value of t takes at least one byte on the wire (whatever the version) *)
+Fixpoint occupies (t : ty) : bool :=
+  match t with
+  | TPrim _ | TStr | TWStr | TEnum _ _ | TSeq _ | TUnion _ _ _ => true
+  | TArr n e => (1 <=? n) && occupies e
+  | TStruct _ ms =>
+    (fix go (ms : list (minfo * ty)) : bool :=
+       match ms with [] => false | (m, t') :: r => m_opt m || occupies t' || go r end) ms
+  end.
+(* the length-versus-bytes guard of deserialize_sequence_elements exempts member-less structures
+   only: a collection of elements that can be empty but are not member-less may be rejected;
+   an XCDR1 optional member whose value is empty is read back as absent (length 0) *)
+Definition zero_size_trap (t : ty) : bool :=
+  match t with
+  | TSeq e | TArr _ e => negb (occupies e || is_empty_struct e)
+  | TStruct _ ms => existsb (fun mx : minfo * ty => m_opt (fst mx) && negb (occupies (snd mx))) ms
+  | _ => false
+  end.
+(* XCDR1 parameter header: `member_id as u16 + (m_flag << 14)` overflows (debug panic) *)
+Definition pid_overflow (t : ty) : bool :=
+  match t with
+  | TStruct _ ms =>
+    existsb (fun mx : minfo * ty => m_opt (fst mx) && m_mu (fst mx) && (49152 <=? wrap_u16 (m_id (fst mx)))) ms
+  | _ => false
+  end.
+
 (* known-finding classes of a round-trip case (0 = none).  Classes 1 (char8 >= 0x80 written as
-   UTF-8) and 2 (XCDR1 float128 reader alignment) were repaired in /repo (c6ffb24, 0b5427b) and
-   no longer exist; the remaining numbers are kept stable:
-   3  XCDR1: after an optional member the reader position is rewound to the member header
-   4  mutable types / unions (stage 3): several defects, see the S3 witnesses *)
+   UTF-8), 2 (XCDR1 float128 reader alignment) and 3 (XCDR1 optional member rewound) were repaired
+   in /repo (c6ffb24, 0b5427b, addc370) and no longer exist; the numbers are kept stable:
+   4  mutable types / unions (stage 3): several defects, see the S3 witnesses
+   5  zero-size values: collection elements that occupy no bytes without being member-less
+      structures hit the length-versus-bytes guard; a present XCDR1 optional member with an empty
+      value is read back as absent
+   6  XCDR1: must_understand optional member with (id mod 2^16) >= 0xC000: u16 overflow panic *)
 Definition known_class (v : ver) (t : ty) (x : val) : N :=
-  if (match v with V1 => true | V2 => false end) && ty_any has_opt_member t then 3%N
-  else if negb (stage2 t) then 4%N
+  if negb (stage2 t) then 4%N
+  else if ty_any zero_size_trap t then 5%N
+  else if (match v with V1 => true | V2 => false end) && ty_any pid_overflow t then 6%N
   else 0%N.
 
 (* pad_entire_serialization as seen on the produced bytes: total length a multiple of 4,
@@ -215,9 +245,18 @@ Definition padding_ok (bs : list Z) : bool :=
    (0 <=? n) && (n <=? 3) && (4 + n <=? blen bs) &&
    forallb (Z.eqb 0) (skipn (length bs - Z.to_nat n) bs)).
 
-(* S1+S2 in one predicate: no union, no mutable type; in XCDR1 additionally no optional member
-   (the recorded reader defect) *)
+(* S1+S2 in one predicate: no union, no mutable type, no zero-size trap; in XCDR1 no parameter
+   id overflow *)
 Definition tbad (V : ver) (t : ty) : bool :=
-  is_union t || is_mutable t ||
-  (match V with V1 => has_opt_member t | V2 => false end).
+  is_union t || is_mutable t || zero_size_trap t ||
+  (match V with V1 => pid_overflow t | V2 => false end).
 Definition tgood (V : ver) (t : ty) : bool := wf_ty t && negb (ty_any (tbad V) t).
+
+(* size limit of the statement: the DHEADER of an appendable object and every length field is a
+   u32; an XCDR1 optional member uses the short parameter header (u16 length; the long header,
+   rule (25), is a TODO in the code) *)
+Definition size_limit (v : ver) (t : ty) : Z :=
+  match v with
+  | V1 => if ty_any has_opt_member t then 65535 else u32_max
+  | V2 => u32_max
+  end.
